@@ -12,6 +12,7 @@ from harness import *
 from skel import *
 
 PID = 'C02'
+TRACE_RATE = [0.05]
 OPERANDS = 'abcdexyzuvw'
 FUNCS = 'fghkmn'
 
@@ -313,6 +314,10 @@ def check_skeleton(spec, res, timeout_ms, cvc5_rate, seed, pid=PID, exclude=True
         else:
             claim, why = TreeCheck(S).claim(o.value.fields[0])
         verdict, model = pr.prove(name, o.pc, claim)
+        if verdict == 'unsat' and pr.rng.random() < TRACE_RATE[0]:
+            fe_, m_ = pr.feasible(o.pc)
+            if fe_:
+                validate_tree_path(C, res, S, o, m_, random.Random(1), 2.0)
         if len(res.samples) < 1:
             res.samples.append(dict(skeleton=S.text(), path=i, path_condition=[str(z3.simplify(c))[:200] for c in o.pc[base:]][:3],
                                     tree=(show_node(C.meta, o.value.fields[0]) if o.kind == 'return' and o.value.variant == 0 else why), verdict=verdict))
